@@ -546,6 +546,7 @@ func main() {
 			tupCases(em, seed)
 			primitiveCases(em)
 			tupDispatchPrefixes(em, seed)
+			proxyResultPrefixes(em, seed)
 		}
 		wal.Done()
 		return
